@@ -503,3 +503,47 @@ def svg2paths_converts_every_kind_it_is_asked_to(c, off):
             got = paths[k][1] if isinstance(paths[k], tuple) else None
             c.ensures('line-element-is-M-x1-y1-L-x2-y2', got is not None and str(got).replace(' ', '') == 'MX1Y1LX2Y2')
     c.ensures('document-is-released', state['unlinked'] == 1)
+
+
+@contract('C17', 'svg_to_paths.polyline2pathd', params=[{'polygon': g, '_bounded_only': True} for g in (False, True)])
+def points_attribute_is_split_as_the_svg_grammar_says(c, polygon):
+    """bounded stand-in (LEX for `points`): three coordinate pairs written in every combination of
+    number notations (integer, signed, leading-dot, trailing-dot, exponent) and separators (comma,
+    blanks, both, newline; no separator before a minus sign): the d-string holds exactly these
+    numbers, pair by pair"""
+    import itertools
+    import svgpathtools.svg_to_paths as s2p
+    notations = [('5', 5.0), ('-5', -5.0), ('0.5', 0.5), ('.5', 0.5), ('-.25', -0.25), ('5.', 5.0), ('1e1', 10.0), ('1.5e-1', 0.15), ('+3', 3.0), ('-2E+1', -20.0)]
+    inner = [',', ' ', ' , ', ', ', '\t']
+    outer = [' ', ',', '\n', ' , ']
+    bad = []
+    n = 0
+    # each evaluation checks one sixtieth of the combinations (all of them over the 60 samples of a run)
+    pick = int(abs(c.real('pick')) * 1000) % 60
+    for (x0, y0, x1) in itertools.product(notations, repeat=3):
+        for si in inner:
+            for so in outer:
+                if (n % 60) != pick and c.mode == 'conc' and not getattr(c, 'replaying', False):
+                    n += 1
+                    continue
+                pts = [(x0, y0), (x1, notations[(n + 3) % len(notations)]), (notations[(n + 5) % len(notations)], x0)]
+                n += 1
+                txt = so.join(a[0] + si + b[0] for a, b in pts)
+                want = [(a[1], b[1]) for a, b in pts]
+                if want[0] == want[-1]:
+                    continue
+                d = s2p.polyline2pathd({'points': txt}, polygon)
+                body = d[1:-1] if d.endswith('z') else d[1:]
+                got = [tuple(float(v) for v in piece.split()) for piece in body.split('L')]
+                exp = want + ([] if not polygon else [])
+                if got != exp or d.endswith('z') != bool(polygon):
+                    bad.append((txt, got, exp))
+    # a minus sign needs no separator in front of it
+    for txt, want in (('1-2 3-4 5-6', [(1.0, -2.0), (3.0, -4.0), (5.0, -6.0)]), ('.5-.5 1-.25 -1-1', [(0.5, -0.5), (1.0, -0.25), (-1.0, -1.0)])):
+        d = s2p.polyline2pathd({'points': txt}, polygon)
+        body = d[1:-1] if d.endswith('z') else d[1:]
+        got = [tuple(float(v) for v in piece.split()) for piece in body.split('L')]
+        if got != want:
+            bad.append((txt, got, want))
+    c.bad_examples = bad[:3]
+    c.ensures('points-are-the-numbers-written', not bad)
